@@ -39,10 +39,15 @@ package identity
 //@   modifies nothing
 //@   ensures result == vHasRec(vs)[str(addr)]
 
-//@ assume func (*ValidatorStore).set
+// set is VERIFIED against the State for its failure path only (`claims`: nothing is written when the write fails). Trusted: the
+// typed view of the success path (Validator.Bytes swallows a serialisation error, so the written bytes cannot be named).
+//@ func (*ValidatorStore).set
+//@   assumes vs != nil && vs.store != nil && wfState(vs.store)
 //@   modifies vHasRec(vs)[str(validator.Address)], vRec(vs)[str(validator.Address)], vHas(vs.store), vVal(vs.store)
-//@   ensures err == nil ==> vHasRec(vs)[str(validator.Address)] && vRec(vs)[str(validator.Address)] == validator
-//@   ensures err != nil ==> vHasRec(vs)[str(validator.Address)] == old(vHasRec(vs)[str(validator.Address)]) && vRec(vs)[str(validator.Address)] == old(vRec(vs)[str(validator.Address)])
+//@   trustframe
+//@   trusts err == nil ==> vHasRec(vs)[str(validator.Address)] && vRec(vs)[str(validator.Address)] == validator
+//@   trusts err != nil ==> vHasRec(vs)[str(validator.Address)] == old(vHasRec(vs)[str(validator.Address)]) && vRec(vs)[str(validator.Address)] == old(vRec(vs)[str(validator.Address)])
+//@   claims err != nil ==> vHas(vs.store) == old(vHas(vs.store)) && vVal(vs.store) == old(vVal(vs.store))   // C10.raw-record
 
 // The two accessors of the last-purge-height record are VERIFIED at the raw layer (`claims`: checked on the body, not handed
 // to callers): the record of validator v lives under the key prefixPurge ++ v of the store's State, a successful write leaves
